@@ -132,8 +132,9 @@ func (x *stressRun) stopper(g int) {
 			x.stopSeen.Add(1)
 		} else {
 			x.rec(g, HOp{K: KAssert, W: x.p.NW}, func() int { stop.Assert(); return 0 })
+			spins = 0
 		}
-		if spins < 200 {
+		if spins < 5000 {
 			runtime.Gosched()
 		} else {
 			time.Sleep(50 * time.Microsecond)
@@ -272,7 +273,7 @@ func judgeStress(p *Prog, hist []HOp) (*evid.Failure, bool) {
 	sig := "lin:" + stuckSig(&lr)
 	why := ""
 	inflight := false
-	if rl := LinearizeRelaxed(hist, 0); rl.OK {
+	if rl := LinearizeRelaxed(hist, 0, false); rl.OK {
 		sig = sigInflightAssert + stuckSig(&lr)
 		inflight = true
 		why = "\n(classification: the history becomes linearizable if a Fetch(false) may miss a waker while another goroutine's Assert of that same waker is still in flight)"
@@ -417,7 +418,8 @@ func genStress(rt *rapid.T) StressCase {
 	fs := func(label string, max int) []string {
 		return rapid.SliceOfN(rapid.SampledFrom([]string{"b", "b", "b", "n", "y"}), 0, max).Draw(rt, label)
 	}
-	p.Fetch = fs("fetch", 40)
+	// short fetch scripts make Done race with the asserts; long ones exercise repeated sleeps
+	p.Fetch = fs("fetch", rapid.SampledFrom([]int{0, 2, 6, 40}).Draw(rt, "fetchmax"))
 	p.Reattach = rapid.Bool().Draw(rt, "reattach")
 	if p.Reattach {
 		p.Fetch2 = fs("fetch2", 20)
@@ -430,6 +432,6 @@ func genStress(rt *rapid.T) StressCase {
 func TestStress(t *testing.T) {
 	stressT = t
 	defer func() { stressT = nil }()
-	stressBegan, stressBudget = time.Now(), evid.Pick(12*time.Second, 4*time.Minute)
+	stressBegan, stressBudget = time.Now(), evid.Pick(15*time.Second, 3*time.Minute)
 	evid.Run(t, evid.Spec[StressCase]{Name: "stress", Gen: genStress, Run: runStress})
 }
